@@ -671,9 +671,10 @@ impl<RW: QueueRW<T>, T> InnerRecv<RW, T> {
                     vpoint!(RX_UNSUB_REMOVED);
                     self.queue.manager.signal.set_reader(SeqCst);
                 }
-                vpoint!(RX_UNSUB_REMOVED);
-                self.queue.manager.remove_token(self.token);
             }
+            // Every handle registered its own token, not only the last one of a stream
+            vpoint!(RX_UNSUB_REMOVED);
+            self.queue.manager.remove_token(self.token);
             fence(SeqCst);
             vpoint!(RX_UNSUB_DONE);
             f()
